@@ -499,6 +499,26 @@ theorem finalising_done_full_clean (p : PCfg) (cls : RV.Ingress.Class)
   obtain ⟨hcl, _⟩ := hdone hd
   simp [cleanB, hc, hi, hg, hcl.1, hcl.2.1, hcl.2.2]
 
+/-- **C06 (`read_fault_reported` instantiated)** — custom refs + Ingress + Gateway in one ref: whichever `Get`
+    fails (the stable Service, the k-th custom ref, the canary or stable Ingress, the HTTPRoute — first or second
+    read), `FinalisingTrafficRouting` and `RestoreGateway` return the error and do not report completion. -/
+theorem read_fault_reported_full (p : PCfg) (cls : RV.Ingress.Class)
+    (us : List (Option RV.Custom.Script × RV.Custom.Obj)) (st : RV.Ingress.Ingress)
+    (hc : p.custom = true) (hi : p.ingress = some (some cls)) (hg : p.gateway = true)
+    (c : XCtx Strat) (a : Api) (n : XNet CNet) (m : Mem) (hinv : CInv p cls us st n.g) :
+    ((finalisingTrafficRoutingX (mkProvider p) c a n m).panic = false →
+      readFailed a (finalisingTrafficRoutingX (mkProvider p) c a n m).a = true →
+      (finalisingTrafficRoutingX (mkProvider p) c a n m).err = true ∧ (finalisingTrafficRoutingX (mkProvider p) c a n m).done = false) ∧
+    ((restoreGatewayX (mkProvider p) c a n m).panic = false → readFailed a (restoreGatewayX (mkProvider p) c a n m).a = true →
+      (restoreGatewayX (mkProvider p) c a n m).err = true) ∧
+    ((doTrafficRoutingX stratOps (mkProvider p) c a n m).panic = false →
+      readFailed a (doTrafficRoutingX stratOps (mkProvider p) c a n m).a = true →
+      (doTrafficRoutingX stratOps (mkProvider p) c a n m).err = true) := by
+  obtain ⟨P, μ, hmk, hL⟩ := newNetworkProvider_full_lawful p cls us st hc hi hg
+  rw [hmk]
+  obtain ⟨h1, h2, _, h4, _⟩ := read_fault_reported stratOps hL c a n m hinv
+  exact ⟨h2, h4, h1⟩
+
 /-! ## known finding `sameServiceGateway` (outside `gwInv`: the two Service names coincide) -/
 
 section finding
